@@ -8,6 +8,7 @@ GO=go1.26.8
 command -v $GO >/dev/null 2>&1 || GO=/opt/veriftools/go1.26.8/bin/go
 mkdir -p bin evidence replays
 (cd cmd/rewrite && $GO build -o ../../bin/rewrite .)
+python3 tools/mkoverlay.py
 # warm-up build (also a smoke test of the pipeline); failures here are reported by the checks themselves
 VERIF_SEEDS=50 ./check C01 --tier quick >/dev/null 2>&1 || true
 echo "setup ok"
